@@ -29,6 +29,7 @@ from exabgp.bgp.message.open.capability import Capabilities
 from exabgp.bgp.message.open.capability import Capability
 from exabgp.bgp.message.open.capability import Negotiated
 from exabgp.bgp.message.open.capability.addpath import AddPath
+from exabgp.bgp.message.open.capability.asn4 import ASN4
 from exabgp.bgp.message.open.capability.mp import MultiProtocol
 from exabgp.bgp.message import Notify
 from exabgp.bgp.message.update.nlri import NLRI
@@ -91,8 +92,15 @@ def _negotiated(neighbor: Neighbor) -> tuple[Negotiated, Negotiated]:
     routerid_1 = str(neighbor.session.router_id)
     routerid_2 = '.'.join(str((int(_) + 1) % 250) for _ in str(neighbor.session.router_id).split('.', -1))
 
+    # the peer's OPEN announces the PEER's AS number in its 4-octet AS capability (RFC 6793 4.1: that value is the
+    # one used once both sides announce the capability): with our own capabilities handed to both OPEN every session
+    # built here was an IBGP one (empty AS_PATH, LOCAL_PREF) whatever peer-as said
+    capa_peer = copy.copy(capa)
+    if Capability.CODE.FOUR_BYTES_ASN in capa_peer:
+        capa_peer[Capability.CODE.FOUR_BYTES_ASN] = ASN4(neighbor.session.peer_as)
+
     o1 = Open.make_open(Version(4), ASN(neighbor.session.local_as), HoldTime(180), RouterID(routerid_1), capa)
-    o2 = Open.make_open(Version(4), ASN(neighbor.session.peer_as), HoldTime(180), RouterID(routerid_2), capa)
+    o2 = Open.make_open(Version(4), ASN(neighbor.session.peer_as), HoldTime(180), RouterID(routerid_2), capa_peer)
     negotiated_in = Negotiated.make_negotiated(neighbor, Direction.IN)
     negotiated_out = Negotiated.make_negotiated(neighbor, Direction.OUT)
     negotiated_in.sent(o1)
